@@ -16,6 +16,12 @@ CHECKS = {
    note="Isomorphism is up to unnamed nodes with identical recursive signatures. Which import an implicit argument binds to is compared up to its semver track (exact naming is C03's). O-wire is trusted to read section payloads correctly (built on wasmparser::Parser only).",
    technique="property-based testing: translation validation of generated compositions with an independent binary decoder (proptest)",
    design="C02"),
+ "C03": dict(
+   category="exploration",
+   text="Compositions from generated libraries (several versions of one API package, `use`-dependent interfaces, versioned shaped packages) x graph histories with chosen arguments left unsatisfied and explicit imports on the same name / same track / unrelated names. The decoded import and export sections must be exactly what the history implies: names grouped by a reference semver track, one import per group named for the highest version, instance imports offering (at least) the union of the sharers' export names, used interfaces allowed, nothing else; exports exactly the designated names and kinds; agreement with CompositionGraph::imports(); ImplicitImportConflict exactly when predicted. Each composition is rebuilt in five other node-creation orders and must give the same outcome class and decoded interface.",
+   note="T7 and its analogue for used interfaces: when an explicit import or a used interface of another version is on the track of an unsatisfied argument the statement does not fix whether they merge, so those groups are checked with a relaxed rule (no invented names; arguments served by an import at least as high as their highest version). Sharer requirements and `uses` provenance are read from wac's decoded package worlds (decoder fidelity is C08's).",
+   technique="property-based testing: model-predicted interface from the operation history + metamorphic permutation of creation order, independent binary decoder (proptest)",
+   design="C03"),
  "C06": dict(
    category="exploration",
    text="Operation histories over the public CompositionGraph API on a tiny universe are run against a reference model written from the method docs: exhaustively for all sequences up to length 3 (quick) / 4 (thorough) over a 22-op alphabet from three start states, and randomly up to 60 ops with removal and re-creation. After every step the call's result class, every query (nodes, kinds, names, exports, imports(), arguments, alias sources, packages) and the guarded invariant hook are checked; every 4th step and at the end the graph must encode to a result class the model's state justifies and to bytes the reference validator accepts; clones are swapped in mid-history.",
